@@ -35,3 +35,27 @@ def run(ctx):
     ctx.tlc("http", "Gen_HttpApi", "Gen_HttpApi.%s.cfg" % ctx.tier, cases_to=cases, timeout=600)
     res = ctx.replay("httpapi", cases)
     ctx.judge("httpapi", cases, res)
+
+    # a server answers requests concurrently: every response is the envelope of its own request's value
+    # (N goroutines x handlers with values only they use, under the race detector)
+    import glob
+    import json
+    racedir = os.path.join(ctx.out, "race")
+    os.makedirs(racedir, exist_ok=True)
+    cc = os.path.join(ctx.out, "conc.ndjson")
+    with open(cc, "w") as f:
+        for g, it in ((4, 300), (16, 150), (32, 60)) if ctx.tier == "quick" else ((4, 3000), (16, 1500), (64, 500)):
+            f.write(json.dumps({"goroutines": g, "iters": it}) + "\n")
+    res = ctx.replay("httpconc", cc, race=True, env_extra={"GORACE": "log_path=%s/race halt_on_error=0 exitcode=0" % racedir})
+    ctx.judge("httpconc", cc, res, race=True, reproduce=False)
+    reports = []
+    for fn in glob.glob(os.path.join(racedir, "race*")):
+        for blk in open(fn, errors="replace").read().split("=================="):
+            if "DATA RACE" in blk and "go-oryx-lib/http" in blk:
+                reports.append(blk.strip())
+    ctx.notes["concurrent_requests"] = sum((r.get("info") or 0) for r in res if isinstance(r.get("info"), int))
+    ctx.notes["race_reports"] = len(reports)
+    if reports:
+        # a report of the race detector is evidence in itself (no false positives, both stacks shown)
+        ctx.fail_results.append(("httpconc", {"race": True}, {"ok": False, "deviation": "C19/data-race",
+                                                               "what": "race detector: " + reports[0][:1500]}))
